@@ -8,7 +8,7 @@ class C08(InvProp):
     id = 'C08'
     rule = ('one case = one generated world with 1-3 leaks on junctions and tanks (area 1e-6..5e-3 m2, Cd in (0,1], start/end on and off the '
             'hydraulic grid, end<=start, start=0, end>duration, only start / only end, removed before the run), nodes driven to negative '
-            'pressure, DD and PDD, with pause/persist/restart faults inside the leak window; every reported row is checked against the window '
+            'pressure, DD and PDD, leaking junctions cut off from every source and reconnected while the leak window is open, with pause/persist/restart faults inside the leak window; every reported row is checked against the window '
             'reference and the orifice law, and with report ALL the window edges must be solved steps. non-trivial = some row had an active '
             'leak; distinct = event-log digest')
     assumptions = ['orifice-law tolerance = min(1e-6, 20 x reached residual norm) m3/s']
@@ -28,6 +28,22 @@ class C08(InvProp):
                 scn['leaks'].append({'node': j['id'], 'area': 1e-3, 'cd': 0.75, 'start': 0, 'end': None, 'removed': False})
         if rng.chance(0.2):
             gen.add_simple_time_controls(rng, scn, 1)
+        if rng.chance(0.3):
+            # cut a leaking junction off while its leak is (or is not yet) active: close every link at the node at a seeded instant,
+            # reopen one of them later
+            leaky = [l['node'] for l in scn['leaks'] if l['node'].startswith('J') and not l.get('removed')]
+            if leaky:
+                j = rng.pick(leaky)
+                at = [l for l in scn['links'] if j in (l['a'], l['b'])]
+                if at and all(l['type'] == 'pipe' for l in at) and len(at) <= 3:
+                    t0 = gen.time_instant(rng, scn)
+                    for l in at:
+                        scn['controls'].append({'name': 'cut%d' % (len(scn['controls']) + 1), 'kind': 'simple', 'cond': {'t': 'simtime', 'rel': '=', 'thr': t0},
+                                                'then': [{'link': l['id'], 'attr': 'status', 'value': 'CLOSED'}], 'priority': 3})
+                    if rng.chance(0.6):
+                        t1 = min(scn['options']['duration'], t0 + rng.pick([1, 2, 3]) * scn['options']['hyd_step'] + rng.pick([0, 7]))
+                        scn['controls'].append({'name': 'cut%d' % (len(scn['controls']) + 1), 'kind': 'simple', 'cond': {'t': 'simtime', 'rel': '=', 'thr': int(t1)},
+                                                'then': [{'link': at[0]['id'], 'attr': 'status', 'value': 'OPEN'}], 'priority': 3})
         e1.add_faults(rng, scn, p_pause=0.45, p_rescue=0.1)
         return scn
 
